@@ -62,3 +62,38 @@ package log
 //@ use casketfile/contracts_verif.go:dispenser_api
 //@ use @verif/specs/stdlib.spec:stdlib
 //@ use @verif/specs/stdlib.spec:casket_api
+
+//@ unit log_setup props=C11,C20 nilchecks=on dispenser_variants=on filter=`log\.(setup|logParse|appendEntry)$`
+//@ // The setup of the `log` directive, and the representation invariant its handler relies on (unit logger_handler takes
+//@ // it as a precondition): every rule is non-nil, every entry of every rule is non-nil and has a logger. appendEntry
+//@ // keeps it, logParse establishes it for what it returns, setup attaches each entry's logger.
+//@ use casketfile/contracts_verif.go:dispenser_api
+//@ use @verif/specs/stdlib.spec:stdlib
+//@ use @verif/specs/stdlib.spec:casket_api
+//@ define wfRule(r *Rule) bool = r != nil && forall(j, 0, len(r.Entries), r.Entries[j] != nil && r.Entries[j].Log != nil)
+//@ define wfRules(rs []*Rule) bool = forall(k, 0, len(rs), wfRule(rs[k]))
+//@ extern github.com/tmpim/casket/caskethttp/httpserver.DefaultLogRoller
+//@   ensures result != nil
+//@ extern github.com/tmpim/casket/caskethttp/httpserver.IsLogRollerSubdirective
+//@ extern github.com/tmpim/casket/caskethttp/httpserver.ParseRoller
+//@ extern (*github.com/tmpim/casket/caskethttp/httpserver.Logger).Attach
+//@ extern (*github.com/tmpim/casket/caskethttp/httpserver.SiteConfig).AddMiddleware
+//@ extern net.ParseIP
+//@ extern (net.IP).To4
+//@ extern strings.Replace
+//@ func appendEntry
+//@   requires wfRules(rules) && entry != nil && entry.Log != nil
+//@   modifies Rule.Entries, E:*github.com/tmpim/casket/caskethttp/log.Entry, E:*github.com/tmpim/casket/caskethttp/log.Rule
+//@   ensures [rules_stay_well_formed] wfRules(result)
+//@   ensures [nothing_lost] len(result) >= len(rules)
+//@   loop 1 invariant 0 <= #i && #i <= len(rules) && wfRules(rules)
+//@ func logParse
+//@   requires c != nil
+//@   ensures [rules_well_formed] result1 == nil ==> wfRules(result0)
+//@   loop 1 invariant c != nil && wfRules(rules)
+//@   loop 2 invariant c != nil && wfRules(rules) && logRoller != nil
+//@   loop 3 invariant c != nil && wfRules(rules) && logRoller != nil && 0 <= i && i <= len(where)
+//@ func setup
+//@   requires c != nil
+//@   loop 1 invariant 0 <= #i && #i <= len(rules) && wfRules(rules)
+//@   loop 2 invariant wfRules(rules) && 1 <= #i1 && #i1 <= len(rules) && rule == rules[#i1 - 1] && 0 <= #i && #i <= len(rule.Entries)
